@@ -298,14 +298,82 @@ func (c *Ctx) AddGoal(g *Goal, guard, body Term) {
 // Query text for a goal: prelude + all decls/facts before it + negated goal.
 var queryNoSoft bool
 
+type qopt struct {
+	Relaxed bool   // drop every quantified assertion (candidate models only; a model is trusted only after replay)
+	Defs    string // defining equations of the recursive spec functions, as axioms (evaluation of concrete executions)
+}
+
+func hasQuantifier(s string) bool {
+	return strings.Contains(s, "(forall ") || strings.Contains(s, "(exists ")
+}
+
+// stripQuantified removes the top-level assertions of an SMT text that contain a quantifier.
+func stripQuantified(text string) string {
+	var out strings.Builder
+	depth, start := 0, 0
+	inComment, inStr := false, false
+	for i := 0; i < len(text); i++ {
+		ch := text[i]
+		if inComment {
+			if ch == '\n' {
+				inComment = false
+			}
+			continue
+		}
+		if inStr {
+			if ch == '"' {
+				inStr = false
+			}
+			continue
+		}
+		switch ch {
+		case ';':
+			inComment = true
+		case '"':
+			inStr = true
+		case '(':
+			if depth == 0 {
+				out.WriteString(text[start:i])
+				start = i
+			}
+			depth++
+		case ')':
+			depth--
+			if depth == 0 {
+				form := text[start : i+1]
+				start = i + 1
+				if strings.HasPrefix(form, "(assert") && hasQuantifier(form) {
+					continue
+				}
+				out.WriteString(form)
+			}
+		}
+	}
+	out.WriteString(text[start:])
+	return out.String()
+}
+
 func (c *Ctx) Query(g *Goal, getvals []string) string {
+	return c.QueryOpt(g, getvals, qopt{})
+}
+
+func (c *Ctx) QueryOpt(g *Goal, getvals []string, qo qopt) string {
 	var b bytes.Buffer
 	b.WriteString("(set-option :produce-models true)\n(set-logic ALL)\n")
-	b.WriteString(c.Prelude)
+	if qo.Relaxed {
+		b.WriteString(stripQuantified(c.Prelude))
+	} else {
+		b.WriteString(c.Prelude)
+	}
 	for _, d := range c.Extra {
+		if qo.Relaxed && hasQuantifier(d) {
+			continue
+		}
 		b.WriteString(d)
 		b.WriteString("\n")
 	}
+	b.WriteString(qo.Defs)
+	var ground []string
 	b.WriteString("\n; ---- facts\n")
 	// relevance slicing: keep every decl; keep facts (cheap and safe).
 	for _, it := range c.Items[:g.upto] {
@@ -316,8 +384,19 @@ func (c *Ctx) Query(g *Goal, getvals []string) string {
 			if queryNoSoft && it.Soft {
 				continue
 			}
+			if qo.Relaxed && hasQuantifier(it.Body) {
+				continue
+			}
+			if qo.Relaxed {
+				ground = append(ground, it.Body)
+			}
 			fmt.Fprintf(&b, "(assert %s)\n", it.Body)
 		}
+	}
+	if qo.Relaxed {
+		ground = append(ground, g.Guard, g.Body)
+		b.WriteString("; ---- ground instances of recursive definitions and prelude axioms (candidate search)\n")
+		b.WriteString(relaxInstances(ground))
 	}
 	b.WriteString("; ---- goal " + g.Name + "\n")
 	if g.ExpectSat {
